@@ -3,7 +3,7 @@ CONSTANTS
   Local = 0
   Known = {0, 1}
   U = {1, 11, 21, 90}
-  U2 = {1, 11, 90}
+  U2 = {11, 90}
   MaxSet = {1, 9}
   Flags = {"none", "other", "count", "limit", "offset", "order"}
   Faults = {}
